@@ -275,7 +275,11 @@ class Sim:
 
             def upd_w(_o=orig_upd, _n=name):
                 sim.event("update", _n)
-                return _o()
+                n0 = len(sim.actuator.actions)
+                r = _o()
+                if len(sim.actuator.actions) != n0:  # liquidation / expiry / settlement records created by the update itself
+                    sim.event("update_actions", _n, len(sim.actuator.actions) - n0)
+                return r
 
             m.set_market_status = set_w
             m.update = upd_w
